@@ -98,7 +98,25 @@ let dump_of_s s = match lst s with
   | _ -> raise (Bad "dump")
 
 (* ---------- operations ---------- *)
-let op_of_s e s = match lst s with
+(* an operation that names a record may carry the universe index of the bundle whose ID it was
+   addressed with (the scrubbed ID of the whole bundle when absent).  Every ID of a bundle of key k
+   denotes record k: the model's operation - and so the demanded effect - is the same whichever is used. *)
+let via_of_s e s : sbundle option = match lst s with
+  | [Atom ("del" | "qid" | "knows" | "complete"); k; v] | [Atom "upd"; k; _; _; _; v] ->
+    let b = e.u.(s_int v) in
+    if b.b_id <> s_n k then raise (Bad "via: bundle of another key");
+    Some b
+  | _ -> None
+let strip_via s = match lst s with
+  | [(Atom ("del" | "qid" | "knows" | "complete") as a); k; _] -> List [a; k]
+  | [(Atom "upd" as a); k; pe; pr; ex; _] -> List [a; k; pe; pr; ex]
+  | _ -> s
+let via_tag e s = match via_of_s e s with
+  | None -> []
+  | Some b -> [(match lst s with Atom a :: _ -> a | _ -> "op") ^ (if b.b_frag then "-by-fragment-id" else "-by-whole-bundle-id")]
+let by_fragment_id e s = match via_of_s e s with Some b -> b.b_frag | None -> false
+
+let op_of_s e s = match lst (strip_via s) with
   | [Atom "push"; i] -> OPush e.u.(s_int i)
   | [Atom "upd"; k; pe; pr; ex] -> OUpdate (s_n k, s_bool pe, s_n pr, s_z ex)
   | [Atom "del"; k] -> ODelete (s_n k)
@@ -172,7 +190,12 @@ let seq = function
         | [ops; ress; dumps] ->
           let o = op_of_s e ops in
           let obs = ores_of_s ress in
-          let where = Printf.sprintf "step %d %s: " i (Sexp.to_string ops) in
+          let byf = by_fragment_id e ops in
+          List.iter tag (via_tag e ops);
+          let where = Printf.sprintf "step %d %s%s: " i (Sexp.to_string ops)
+              (match via_of_s e ops with
+               | Some b when b.b_frag -> Printf.sprintf " [addressed by the ID of fragment %s/%s]" (dec_of_n b.b_off) (dec_of_n b.b_total)
+               | _ -> "") in
           (* the property's checker: the reference map *)
           let sres = ores_of_result e (op_key o) (spec_result !a o) in
           let mres = ores_of_result e (op_key o) (op_result d !c o) in
@@ -191,6 +214,7 @@ let seq = function
             let key = match o with
               | OQueryId _ -> "store.query.id" | OQueryPending -> "store.query.pending" | OKnows _ -> "store.query.knows"
               | OComplete _ -> "store.complete.wrong" | _ -> "store.op.error" in
+            let key = if byf then key ^ ".by-fragment-id" else key in
             add (Propfail (key, where ^ "implementation answers differently from the reference map"))
           end;
           (* complete <-> covering, judged on the observed record alone *)
@@ -202,7 +226,10 @@ let seq = function
                 if cv <> cpl then
                   add (Propfail ((if cv then "store.complete.covering-set-incomplete" else "store.complete.gap-reported-complete"),
                                  where ^ "IsComplete=" ^ string_of_bool cpl ^ " but covering=" ^ string_of_bool cv ^ " " ^ show_orec r));
-                if r.ofrag && List.length r.oparts > 1 then tag "complete-multipart"
+                if r.ofrag && List.length r.oparts > 1 then tag "complete-multipart";
+                if r.ofrag && List.length r.oparts = 1 then
+                  tag (if cv then (match r.oparts with [(_, 0, _)] -> "complete-lone-fragment-of-empty-payload" | _ -> "complete-lone-covering-fragment")
+                       else "complete-lone-partial-fragment")
               | None -> ())
            | _ -> ());
           (* advance *)
@@ -212,7 +239,9 @@ let seq = function
           let sm = canon_map e !a in
           if canon_map e (abs d !c) <> sm then add (Mismatch (where ^ "internal: model state differs from reference map"));
           (match map_diff orecs sm with
-           | Some (key, det) -> add (Propfail (key, where ^ det))
+           | Some (key, det) ->
+             let key = (match o with ODelete _ | OUpdate _ when byf -> key ^ ".by-fragment-id" | _ -> key) in
+             add (Propfail (key, where ^ det))
            | None -> ());
           if ofiles <> files_of_model !c then add (Mismatch (where ^ "part files on disk differ from the model"))
         | _ -> raise (Bad "step")) (lst steps);
